@@ -284,6 +284,72 @@ def ob_surrogates(name, method, N, T, calls):
                      f"C15|Surrogates.{method}", wit, max_paths=3000)
 
 
+def ob_twin_glue(name, N, T, calls):
+    """Surrogates.twin_surrogates, called repeatedly on one object with different parameters: every call hands _twin_surrogates_s the twins
+    that _twins_s computed for the delay embedding of the CURRENT original data with the REQUESTED (dimension, delay, threshold, min_dist)
+    (the kernels themselves are decided separately; here they are recording stubs, the embedding kernel is executed by Engine K)"""
+    from pyunicorn.timeseries import Surrogates
+    funcs = ["src/pyunicorn/timeseries/surrogates.py Surrogates.twin_surrogates/twins/embedding.setter/embed_time_series_array/normalize_original_data",
+             kern.module(TS).func_info("_embed_time_series_array")]
+    data = sym_data(N, T)
+    bound = f"{N} series x {T} samples, call sequence {calls} of (dimension, delay, threshold, min_dist[, normalise first]) on one object"
+    log = {"twins": [], "walk": []}
+
+    def twins_stub(N_, n_time, dim, thr, md, emb, R, nR, twins):
+        token = ("twins#", len(log["twins"]))
+        log["twins"].append({"token": token, "N": N_, "n_time": n_time, "dim": dim, "thr": pe._num(thr), "md": md,
+                             "emb": [pe._num(x) for x in np.asarray(emb, dtype=object).ravel()], "shape": np.asarray(emb, dtype=object).shape})
+        twins.append(token)
+
+    def walk_stub(N_, n_time, twins, dat):
+        log["walk"].append({"N": N_, "n_time": n_time, "twins": list(twins), "data": [pe._num(x) for x in np.asarray(dat, dtype=object).ravel()]})
+        return pe.NP.zeros((N_, n_time))
+
+    def harness(ex):
+        out = []
+        log["twins"].clear()
+        log["walk"].clear()
+        patch = {"pyunicorn.timeseries.surrogates": {"random": RandomStub(), "_twins_s": twins_stub, "_twin_surrogates_s": walk_stub,
+                                                      "_embed_time_series_array": pnet.kernel_shim(TS, "_embed_time_series_array",
+                                                                                                   [None, None, None, None, "float64", "float64"])}}
+        pe.clear_caches(Surrogates)
+        with pe.patched(sur_mods(), patch):
+            s = Surrogates(SymNd(data.copy()), silence_level=3)
+            for c, call in enumerate(calls):
+                dim, delay, thr, md = call[:4]
+                if len(call) > 4 and call[4]:
+                    s.normalize_original_data()
+                cur = np.asarray(s.original_data, dtype=object)
+                s.twin_surrogates(dim, delay, thr, md)
+                if len(log["walk"]) != c + 1:
+                    out.append((f"call {c}: _twin_surrogates_s not called once", True))
+                    continue
+                wk = log["walk"][-1]
+                n_emb = T - (dim - 1) * delay
+                if wk["n_time"] != n_emb or wk["N"] != N:
+                    out.append((f"call {c}: surrogate length handed to the kernel", True))
+                toks = [t for t in wk["twins"] if isinstance(t, tuple) and t and t[0] == "twins#"]
+                if len(toks) != 1:
+                    out.append((f"call {c}: twins list does not come from one _twins_s call", True))
+                    continue
+                rec = log["twins"][toks[0][1]]
+                # the twins in use must have been computed for the requested parameters and the embedding of the current data
+                if (rec["dim"], rec["md"], rec["n_time"], rec["N"]) != (dim, md, n_emb, N) or rec["shape"] != (N, n_emb, dim):
+                    out.append((f"call {c}: twins computed for other parameters (dimension/min_dist/length)", True))
+                    continue
+                out.append((f"call {c}: twins computed for another threshold", ne(rec["thr"], thr)))
+                spec = [pe._num(cur[i, k + j * delay]) for i in range(N) for k in range(n_emb) for j in range(dim)]
+                out.append((f"call {c}: twins computed for an embedding that is not the delay embedding of the current data",
+                            or_(*[ne(a, b) for a, b in zip(rec["emb"], spec)])))
+        return [(l, b) for l, b in out if b is not False]
+
+    def wit(m, lab):
+        return {"kind": "twin_glue", "calls": [list(c) for c in calls], "label": lab,
+                "data": [[sx.model_value(m, data[i, j].v) for j in range(T)] for i in range(N)] if m else None}
+    from .C07 import run_paths
+    return run_paths(name, [], harness, funcs, bound, "C15|Surrogates.twin_surrogates|glue", wit, max_paths=200)
+
+
 def prepare(tier):
     import numpy as np
     notes = []
@@ -324,6 +390,10 @@ def obligations(tier):
             N, T = (2, 3) if method in ("white_noise_surrogates", "correlated_noise_surrogates") else (1, 3)
             obs.append((ob_surrogates, dict(name=f"C15|Surrogates.{method}|calls={calls}", method=method, N=N, T=T, calls=calls), 2400))
     obs.append((ob_rp_twins, dict(name="C15|RecurrencePlot.twin_surrogates|applicable"), 600))
+    seqs = [[(2, 2, 1, 0), (3, 1, 1, 0)], [(1, 1, 1, 0), (2, 1, 1, 0), (1, 1, 1, 0)], [(2, 1, 1, 0), (2, 1, 2, 0), (2, 1, 2, 1)],
+            [(2, 1, 1, 0), (2, 1, 1, 0, True)]]
+    for k, seq in enumerate(seqs):
+        obs.append((ob_twin_glue, dict(name=f"C15|Surrogates.twin_surrogates|glue|sequence#{k}", N=1, T=5, calls=seq), 1200))
     return obs
 
 
@@ -366,6 +436,42 @@ def ob_rp_twins(name):
 
 # ------------------------------------------------------------------------------------------------ replay
 def replay(w):
+    import numpy as np
+    if w.get("kind") == "twin_glue":
+        import random
+        from pyunicorn.timeseries import Surrogates
+        rng = np.random.default_rng(5)
+        if w.get("data"):
+            base = np.array(core.to_float(w["data"]), dtype=float)
+        else:
+            base = None
+        probs = []
+        for attempt in range(6):
+            # generic data with repeated states (so that twins exist); the witness' data first if the solver supplied some
+            data = base if (attempt == 0 and base is not None) else np.round(rng.integers(0, 3, size=(1, 12)) + 1e-3 * rng.random((1, 12)), 6)
+            if attempt == 0 and base is not None and len(set(np.round(base.ravel(), 9))) < 2:
+                continue
+            s = Surrogates(data.copy(), silence_level=3)
+            normalised = False
+            for c, call in enumerate(w["calls"]):
+                dim, delay, thr, md = call[:4]
+                if len(call) > 4 and call[4]:
+                    s.normalize_original_data()
+                    normalised = True
+                random.seed(1)
+                s.twin_surrogates(dim, delay, thr, md)
+                used = [sorted(x) for x in s.twins(thr, md)[0]] if s.twins(thr, md) else []
+                fresh = Surrogates(data.copy(), silence_level=3)
+                if normalised:
+                    fresh.normalize_original_data()
+                fresh.embedding = fresh.embed_time_series_array(fresh.original_data, dim, delay)
+                ref = [sorted(x) for x in fresh.twins(thr, md)[0]]
+                if used != ref:
+                    probs.append(f"call {c} {tuple(call)} on data {data.tolist()}: twins in use {used} but the twins of the requested embedding are {ref}")
+                    break
+            if probs:
+                break
+        return bool(probs), "; ".join(probs)
     import numpy as np
     from pyunicorn.timeseries import Surrogates, RecurrencePlot
     from pyunicorn.timeseries._ext import numerics as TSN
